@@ -300,8 +300,36 @@ def one_interrupt(desc, build, k, position):
         def failing_output(b):
             raise OSError(28, "No space left on device")
 
+        class CountingEvent(threading.Event):
+            """the display's stop event. Once it is set, a correct update loop sees it at its next wait and ends; a loop that keeps coming back
+            (bounded: 25 more waits) never lets the observer's __exit__ - and with it run - return. The thread is busy, so kernel-state sampling
+            cannot see this livelock."""
+
+            def __init__(self):
+                super().__init__()
+                self.after_set = 0
+
+            def wait(self, timeout=None):
+                r_ = super().wait(timeout)
+                if r_:
+                    self.after_set += 1
+                    if self.after_set == 25:
+                        from vmon import abort
+
+                        abort.abort_with({"status": "violation", "mechanism": "hang",
+                                          "detail": "[interrupt with a display whose output fails] the display's update thread came back to its stop event 25 times "
+                                                    "after the event was set: the progress observer is never exited and run never returns",
+                                          "witness": {"desc": desc}, "counters": {"livelocks": 1}})
+                return r_
+
+        def make_obs():
+            o = up.HtmlProgressObserver(failing_output, initial_update_delay=0.001, min_update_interval=0.002, max_update_interval=0.01)
+            if isinstance(getattr(o, "_done_event", None), threading.Event):
+                o._done_event = CountingEvent()
+            return o
+
         # a display whose output fails: its trouble must not replace the KeyboardInterrupt
-        progress = up.Progress(lambda: up.HtmlProgressObserver(failing_output, initial_update_delay=0.001, min_update_interval=0.002, max_update_interval=0.01))
+        progress = up.Progress(make_obs)
     before = rec.thread_census()
     result = exc = None
     returned = False
